@@ -1,6 +1,12 @@
 //! Stand-in for `docker` and `pack` (symlinked under both names into a private PATH directory).
 //! Appends {"n", "prog", "argv"} to $FAKECLI_LOG and exits 1 for the invocation numbers listed
 //! in $FAKECLI_FAIL (comma separated, 1-based), else 0. `docker port` prints an address.
+//! Container existence is tracked in `$FAKECLI_LOG.containers`: `docker run --name X` creates X
+//! unless its invocation number is also listed in $FAKECLI_HARD (the daemon rejected the request
+//! at create time, e.g. a bind mount with a missing source: no container exists afterwards);
+//! `docker logs|exec|port` naming a container that does not exist exit 1 ("No such container") -
+//! a consequence of the earlier failure, not a further fault; `docker rm --force` of a missing
+//! container exits 0 as the real CLI does.
 use std::io::Write;
 fn main() {
     let args: Vec<String> = std::env::args().collect();
@@ -66,7 +72,54 @@ fn main() {
     }
     writeln!(f, "{}", serde_json::json!({"n": n, "prog": prog, "argv": &args[1..], "path_listing": listing, "buildpack_listings": bp_listings, "cwd": std::env::current_dir().ok()})).unwrap();
     let fail: Vec<usize> = std::env::var("FAKECLI_FAIL").unwrap_or_default().split(',').filter_map(|x| x.parse().ok()).collect();
-    if fail.contains(&n) {
+    let hard: Vec<usize> = std::env::var("FAKECLI_HARD").unwrap_or_default().split(',').filter_map(|x| x.parse().ok()).collect();
+    if prog == "docker" {
+        let state_path = format!("{log}.containers");
+        let mut existing: Vec<String> = std::fs::read_to_string(&state_path).map(|s| s.lines().map(String::from).collect()).unwrap_or_default();
+        let mut a: Vec<&str> = args[1..].iter().map(|s| s.as_str()).collect();
+        if a.first() == Some(&"container") {
+            a.remove(0);
+        }
+        let positional = |skip_valued: &[&str]| -> Option<String> {
+            let mut i = 1;
+            while i < a.len() {
+                if a[i].starts_with("--") {
+                    if skip_valued.contains(&a[i]) {
+                        i += 1;
+                    }
+                } else {
+                    return Some(a[i].to_string());
+                }
+                i += 1;
+            }
+            None
+        };
+        match a.first().copied() {
+            Some("run") => {
+                if let Some(i) = a.iter().position(|x| *x == "--name") {
+                    if let Some(name) = a.get(i + 1) {
+                        if !hard.contains(&n) {
+                            existing.push(name.to_string());
+                        }
+                    }
+                }
+            }
+            Some("rm") => {
+                existing.retain(|c| !a[1..].contains(&c.as_str()));
+            }
+            Some("logs") | Some("exec") | Some("port") => {
+                if let Some(c) = positional(&[]) {
+                    if !existing.contains(&c) {
+                        eprintln!("Error response from daemon: No such container: {c}");
+                        std::process::exit(1);
+                    }
+                }
+            }
+            _ => {}
+        }
+        std::fs::write(&state_path, existing.join("\n")).unwrap();
+    }
+    if fail.contains(&n) || hard.contains(&n) {
         eprintln!("fakecli: scripted failure of invocation {n}");
         std::process::exit(1);
     }
